@@ -116,7 +116,7 @@ def c04(chk):
     chk.assumptions = ["subscribers keep up with the broadcast channel (lagged receivers out of scope)",
                        "quinn delivers close notifications / idle timeouts as QUIC specifies"]
     chk.add_mc(tlc_mc("MC_Conn.tla", "MC_Conn_quick.cfg" if quick(chk) else "MC_Conn_thorough.cfg",
-                      workers=8 if quick(chk) else 14, timeout=300 if quick(chk) else 1800))
+                      workers=8 if quick(chk) else 14, timeout=900 if quick(chk) else 5400))
     if not quick(chk):
         # three networks, three dials in any directions, a disconnect: 12.3 M states
         chk.add_mc(tlc_mc("MC_Conn.tla", "MC_Conn_3n.cfg", workers=12, timeout=3600))
@@ -222,12 +222,12 @@ def c05(chk):
                 "latency/loss; plus rows of the tie-break table x random id pairs")
     chk.assumptions = ["both handshakes finish (the property's premise): runs where a dial failed are still validated "
                        "by the trace spec but not required to converge on a connection"]
-    chk.add_mc(tlc_mc("MC_Conn.tla", "MC_Conn_c05.cfg", workers=4, timeout=300))
-    chk.add_mc(tlc_mc("MC_Conn.tla", "MC_Conn_abandon.cfg", workers=4, timeout=600))   # connect() calls may be dropped mid-dial
+    chk.add_mc(tlc_mc("MC_Conn.tla", "MC_Conn_c05.cfg", workers=4, timeout=900))
+    chk.add_mc(tlc_mc("MC_Conn.tla", "MC_Conn_abandon.cfg", workers=4, timeout=1500))   # connect() calls may be dropped mid-dial
     spec_mutant(chk, "tiebreak_inverted", "MC_Conn.tla", "MC_Conn_c05.cfg", [MUT_TIEBREAK], workers=4)
     # liveness under weak fairness of transport / manager / handler steps: after a mutual dial both sides end
     # - for ever - on the connection dialed by the greater identity, and the event streams fall silent
-    chk.add_mc(tlc_mc("MC_Conn.tla", "MC_Conn_live_c05.cfg", workers=4, timeout=300))
+    chk.add_mc(tlc_mc("MC_Conn.tla", "MC_Conn_live_c05.cfg", workers=4, timeout=900))
     spec_mutant(chk, "live_arrival_order_wins", "MC_Conn.tla", "MC_Conn_live_c05.cfg",
                 [("AnemoConn.tla", "THEN IF TieBreak(n, p, cur[p].origin, o)", "THEN IF TRUE")], workers=4)
     tables = vlib.tlc_tables("TieBreakTable.tla", "TieBreakTable.cfg")
@@ -286,7 +286,7 @@ def c03(chk):
                 "party answering is not the pinned identity, or an adversary listens (replayed certificate / own certificate)")
     chk.assumptions = ["the adversary cannot forge Ed25519 signatures (it holds only its own key)"]
     chk.add_mc(tlc_mc("MC_Conn.tla", "MC_Conn_quick.cfg" if quick(chk) else "MC_Conn_thorough.cfg",
-                      workers=8 if quick(chk) else 14, timeout=300 if quick(chk) else 1800))
+                      workers=8 if quick(chk) else 14, timeout=900 if quick(chk) else 5400))
     runs = 16 if quick(chk) else 400
     for label, lossy in (("clean", 0), ("lossy", 1)):
         summ = harness("c03", out=os.path.join(vlib.WORK, f"C03_{label}"), seed=chk.seed + 1000 * lossy,
@@ -322,16 +322,16 @@ def c09(chk):
                        "keeps sending (keep-alive, new RPC) restarts its timer once, so the bound is idle + keep-alive interval "
                        "(+ the last send) - see DESIGN.md"]
     chk.add_mc(tlc_mc("MC_Conn.tla", "MC_Conn_quick.cfg" if quick(chk) else "MC_Conn_thorough.cfg",
-                      workers=8 if quick(chk) else 14, timeout=300 if quick(chk) else 1800))
+                      workers=8 if quick(chk) else 14, timeout=900 if quick(chk) else 5400))
     # the environment assumption behind the deadline rules (QUIC's idle timer, RFC 9000 10.1) as a model of
     # its own: the bounds the trace specification uses follow from it; that a survivor can outlive
     # cut + idle when it sent nothing after the cut but loss preceded its last receipt is reachable
-    chk.add_mc(tlc_mc("QuicIdle.tla", "MC_QuicIdle.cfg", workers=2, timeout=300))
-    chk.add_mc(tlc_mc("QuicIdle.tla", "MC_QuicIdle_ka.cfg", workers=2, timeout=300))
+    chk.add_mc(tlc_mc("QuicIdle.tla", "MC_QuicIdle.cfg", workers=2, timeout=900))
+    chk.add_mc(tlc_mc("QuicIdle.tla", "MC_QuicIdle_ka.cfg", workers=2, timeout=900))
     spec_mutant(chk, "quic_idle_survivor_can_outlive_cut_plus_idle", "QuicIdle.tla", "MC_QuicIdle_long.cfg", [], workers=2)
     # liveness under weak fairness (timeouts, disconnects and dials stay up to the environment): views become
     # mutual for ever, no handler outlives its listing, the event streams fall silent
-    chk.add_mc(tlc_mc("MC_Conn.tla", "MC_Conn_live.cfg", workers=4, timeout=600))
+    chk.add_mc(tlc_mc("MC_Conn.tla", "MC_Conn_live.cfg", workers=4, timeout=1500))
     spec_mutant(chk, "live_stale_exit_removes_replacement", "MC_Conn.tla", "MC_Conn_live.cfg", [MUT_REMOVE_BY_PEER], workers=4)
     runs = 24 if quick(chk) else 700
     for label, kw in (("ka", dict(keepalive=3000, nodes=3, ops=50)),
@@ -369,7 +369,7 @@ def c10(chk):
     chk.rule = ("cases = (verdict, affinity, limit, established connections at arrival) per admission decision recorded; "
                 "all are non-trivial except (admit, no affinity, no limit)")
     chk.assumptions = ["arrivals do not overlap (the property excludes simultaneous arrivals)"]
-    chk.add_mc(tlc_mc("MC_Conn.tla", "MC_Conn_c10.cfg", workers=8, timeout=600))
+    chk.add_mc(tlc_mc("MC_Conn.tla", "MC_Conn_c10.cfg", workers=8, timeout=1500))
     runs = 48 if quick(chk) else 1500
     summ = harness("c10", out=os.path.join(vlib.WORK, "C10"), seed=chk.seed, runs=runs, jobs=12, files=8)
     summ["args"] = {}
